@@ -1,4 +1,4 @@
-import MuduoVerif.Proofs.LoopElt
+import MuduoVerif.Proofs.LoopOwner
 import MuduoVerif.Proofs.Pool
 /-!
 # C05 — quit() always ends the loop; loop threads and pools start, serve, join cleanly
@@ -182,6 +182,25 @@ theorem startLoop_terminates (s : St) (h : Reachable s) (k : Nat) (hk : k ≠ s.
   · have := returns_only_after_quit s h (Or.inr (Or.inr h1.2)); simp [hq] at this
   · rcases hpc with hpc | hpc <;> simp [EarlyDestroy, hpc] at h1
 
+/-- **clean_shutdown**: the documented use of `EventLoopThread` — one owner thread calls `startLoop()`, then hands any
+number of tasks to the loop (`queueInLoop`, `runInLoop`, bytes for an I/O handler; task bodies and the thread-init
+callback submit more work but do not call `quit()`), then optionally destroys the object.  For **every** schedule, a
+state in which no thread can move is a clean end: the owner has finished its program, no step touched a destroyed
+loop, and either the object was destroyed — then the loop was told to quit, `loop()` returned, the loop object is
+gone and the join has returned — or it was not, and the loop idles in `poll` with nothing asked of it.  In
+particular neither `startLoop()` nor the destructor's `join()` can hang, at any timing of the destructor relative to
+the new thread's start-up. -/
+theorem clean_shutdown (wl : Bool) (tbl : TaskId → List Sub) (pre body tail : List Sub) (sched : List Nat)
+    (htbl : ∀ x, userOnly (tbl x) = true) (hpre : userOnly pre = true) (hbody : userOnly body = true)
+    (htail : tail = [] ∨ tail = [.destroy]) :
+    let s := run (init true wl tbl pre (fun k => if k = 0 then .startLoop :: (body ++ tail) else [])) sched
+    Stuck s →
+      (s.thr 0).pc = .idle ∧ (s.thr 0).prog = [] ∧ s.uafDtor = false ∧
+      ((tail = [.destroy] ∧ s.phase = .dead ∧ s.qreq = true) ∨ (tail = [] ∧ IdleInPoll s)) := by
+  intro s hs
+  exact owner_stuck
+    (run_invariant (fun _ k h => step_owner htail k h) (init_owner wl tbl pre body tail htbl hpre hbody) sched) hs
+
 /-! ## EventLoopThreadPool -/
 
 open MuduoVerif.Pool in
@@ -229,6 +248,14 @@ example :
                  [0, 1, 1, 1, 1, 1, 0, 0, 0, 0, 0, 0, 0, 1, 1, 1, 1, 1, 1, 1, 1, 1, 1, 1, 1, 1, 1, 0]
     s.executed = [1] ∧ s.phase = .dead ∧ s.uafDtor = false ∧ (s.thr 0).pc = .idle ∧ (s.thr 0).prog = [] ∧
     s.qreq = true := by
+  decide +kernel
+
+/-- the hypotheses of `clean_shutdown` are satisfiable and its conclusion is reached: the run above is such a program
+(`body = [queue 1]`, `tail = [destroy]`) and ends in a state where nobody can move -/
+example :
+    let s := run (init true false (fun _ => []) [] (fun k => if k = 0 then .startLoop :: ([.queue 1] ++ [.destroy]) else []))
+                 [0, 1, 1, 1, 1, 1, 0, 0, 0, 0, 0, 0, 0, 1, 1, 1, 1, 1, 1, 1, 1, 1, 1, 1, 1, 1, 1, 0]
+    enabled s 0 = false ∧ enabled s 1 = false ∧ s.phase = .dead ∧ userOnly [Sub.queue 1] = true := by
   decide +kernel
 
 /-- a `quit()` that completes before `loop()` starts: the flag is still set when the loop tests it -/
